@@ -22,7 +22,8 @@ import (
 // ---- the all-kinds schema -------------------------------------------------
 
 func allKindsFields() defMap {
-	f := defMap{"o": {Kind: "rel", To1: true, TT: "ak2"}, "m": {Kind: "rel", To1: false, TT: "ak2"}}
+	f := defMap{"o": {Kind: "rel", To1: true, TT: "ak2"}, "m": {Kind: "rel", To1: false, TT: "ak2"},
+		"o2": {Kind: "rel", To1: true, TT: "ak2"}, "m2": {Kind: "rel", To1: false, TT: "ak2"}}
 	for _, k := range baseKinds {
 		n := kindName(k)
 		f["k"+n] = jDef{Kind: "attr", K: n}
@@ -154,6 +155,11 @@ func runRoundTrip(c rtCase) rtEvent {
 		}
 		src.Set("o", o)
 		src.Set("m", append([]string{}, m...))
+		src.Set("o2", "")
+		if len(m) > 0 {
+			src.Set("o2", m[0])
+			src.Set("m2", []string{o})
+		}
 		all, rd := allFieldsOf(src)
 		var payload []byte
 		var back jsonapi.Resource
@@ -1027,6 +1033,25 @@ func codecOtherModes(mode string, rng *rand.Rand, stt *stats, w *evWriter, n int
 				rm.Listed = listed
 			}
 			c.Rels = []relShape{ro, rm}
+			// the second to-one / to-many relationships: map iteration decides which is decoded first
+			so2, sm2 := shapes[rng.Intn(len(shapes))], shapes[rng.Intn(len(shapes))]
+			ro2 := relShape{Name: "o2", To1: true, Shape: so2, Listed: []string{}}
+			rm2 := relShape{Name: "m2", To1: false, Shape: sm2, Listed: []string{}}
+			if so2 == "ident" || so2 == "identbadtype" {
+				ro2.Listed = []string{"w"}
+			}
+			if so2 == "list" {
+				ro2.Listed = []string{"w", "x"}
+			}
+			if sm2 == "ident" || sm2 == "identbadtype" {
+				rm2.Listed = []string{"w"}
+			}
+			if sm2 == "list" {
+				rm2.Listed = []string{"x", "w", "x"}
+			}
+			if i%3 != 0 {
+				c.Rels = append(c.Rels, ro2, rm2)
+			}
 			ev := runPayload(c)
 			stt.Calls += 3
 			stt.class("full:" + ev.Out)
